@@ -619,27 +619,35 @@ Lemma read_spec s n : inv s -> 0 <= n ->
 Proof.
   intros H Hn. pose proof (abs_len s H) as Hal. pose proof H as Hinv. unfold inv in H. destruct H as (H1 & H2 & H3 & H4 & H5).
   unfold read, empty.
-  destruct ((blen s <=? rpos s) && negb (isnil s)) eqn:E.
-  - rewrite set_len_ok by (unfold cap; sim; pose proof (len_nonneg (mem s)); lia). cbn [bind].
-    set (s1 := with_len (with_rpos s 0) 0).
-    assert (I1 : inv s1) by (unfold inv, s1; sim; splits; try lia; assumption).
-    assert (Hq : abs s = []) by (apply len0_nil; lia).
-    assert (A1 : abs s1 = []) by (apply len0_nil; rewrite abs_len by assumption; unfold s1; sim; lia).
-    assert (P1 : past s1 = []) by (unfold past, s1; sim; apply tk_0; lia).
-    assert (OK : okstep s s1) by (unfold okstep, lim_ok, s1; sim; splits; try assumption; try reflexivity; lia).
-    assert (Q : forall e, (e = 0 \/ e = EOF /\ n <> 0) ->
+  destruct (blen s <=? rpos s) eqn:E.
+  - assert (Hq : abs s = []) by (apply len0_nil; lia).
+    assert (Q : forall s1 e, abs s1 = [] -> suffix_of (past s1) (past s) ->
+      ((e = EOF /\ n <> 0) \/ (e = 0 /\ n = 0)) ->
       qstep (limit s) (past s) (abs s) (ORead n) (RData [] e) (past s1) (abs s1)).
-    { intros e He. cbn [qstep]. rewrite Hq, A1, P1. rewrite tk_all, dr_all by (rewrite len_nil; lia).
-      splits; try reflexivity; [apply suffix_nil | tauto]. }
+    { intros s1 e A1 P1 He. cbn [qstep]. rewrite Hq, A1. rewrite tk_all, dr_all by (rewrite len_nil; lia).
+      rewrite app_nil_r. splits; try reflexivity; try assumption.
+      destruct He as [(He1 & He2) | (He1 & He2)]; [left | right]; splits; auto. }
+    assert (R : exists s1, (if isnil s then Ok s else set_len (with_rpos s 0) 0) = Ok s1 /\ okstep s s1 /\
+                  abs s1 = [] /\ suffix_of (past s1) (past s)).
+    { destruct (isnil s) eqn:Enil.
+      - exists s. split; [reflexivity|]. split; [apply okstep_refl; assumption|]. split; [exact Hq | apply suffix_refl].
+      - rewrite set_len_ok by (unfold cap; sim; pose proof (len_nonneg (mem s)); lia).
+        set (s1 := with_len (with_rpos s 0) 0). exists s1. split; [reflexivity|].
+        assert (I1 : inv s1) by (unfold inv, s1; sim; splits; try lia; try assumption; intros X; congruence).
+        split; [unfold okstep, lim_ok, s1; sim; splits; try assumption; try reflexivity; lia|].
+        split; [apply len0_nil; rewrite abs_len by assumption; unfold s1; sim; lia|].
+        replace (past s1) with (@nil Z) by (symmetry; unfold past, s1; sim; apply tk_0; lia). apply suffix_nil. }
+    destruct R as (s1 & R & OK & A1 & P1). rewrite R. cbn [bind].
     destruct (n =? 0) eqn:En.
-    + exists s1, [], 0. split; [reflexivity|]. split; [exact OK | apply Q; tauto].
-    + exists s1, [], EOF. split; [reflexivity|]. split; [exact OK | apply Q; right; split; [reflexivity|lia]].
+    + exists s1, [], 0. split; [reflexivity|]. split; [exact OK | apply Q; auto; right; split; [reflexivity|lia]].
+    + exists s1, [], EOF. split; [reflexivity|]. split; [exact OK | apply Q; auto; left; split; [reflexivity|lia]].
   - rewrite slice_abs by assumption. cbn [bind].
     set (k := Z.min n (len (abs s))).
     destruct (adv_spec s k Hinv ltac:(subst k; pose proof (len_nonneg (abs s)); lia)) as (I' & A' & P' & OK & _).
     eexists _, _, 0. split; [reflexivity|]. split; [exact OK|].
     cbn [qstep]. rewrite A', P'. subst k. rewrite tk_min, dr_min.
-    splits; try reflexivity; [apply suffix_refl | tauto].
+    splits; try reflexivity; [apply suffix_refl|].
+    right. split; [reflexivity|]. left. intros Hq0. rewrite Hq0, len_nil in Hal. lia.
 Qed.
 
 Lemma read_fixed_eq s w : inv s -> 1 <= w ->
